@@ -181,17 +181,19 @@ def concat (t1 t2 : List Int) : Except Err (List Int) := do
   let b ← getAll t2
   .ok (a ++ b)
 
-/-- `detail::tuple_cat::operator()(result, head, tail...)` = `(*this)(concat(result, head), tail...)`;
-    `operator()(result)` = `tuple{get<Is>(result)...}` -/
+/-- `detail::tuple_cat::run<R>(result, head, tail...)` = `run<R>(concat(result, head), tail...)`;
+    `run<R>(result)` = `R(get<Is>(forward<Result>(result))...)` -/
 def catGo (result : List Int) : List (List Int) → Except Err (List Int)
   | [] => getAll result
   | head :: tail => do
     let r ← concat result head
     catGo r tail
 
-/-- `etl::tuple_cat(ts...)` = `detail::tuple_cat(ts...)`; there is no overload for zero tuples -/
+/-- `etl::tuple_cat(ts...)`: `if constexpr (sizeof...(Tuples) == 0) return tuple<>{};` else
+    `detail::tuple_cat.run<result_t>(ts...)` (the result TYPE `result_t` is computed from the declared element types of the
+    arguments — outside this value-level model; checked by the `typeq q=tuple_cat_*` lines and the static_assert matrix) -/
 def tupleCat : List (List Int) → Except Err (List Int)
-  | [] => .error (.pre "tuple_cat: at least one tuple")
+  | [] => .ok []
   | t :: ts => catGo t ts
 
 /-! ## calls -/
